@@ -13,12 +13,22 @@
 // With -extra dump=<dir> the source of a differing program is written to <dir>/<id>.elk.
 // With -extra start=<i> generation is replayed but programs before i are not run (restart after a
 // crash: a Go panic inside a checker goroutine cannot be recovered and kills the process).
+//
+// Family "many bodies x shared fresh names" (-extra fam=<k>; ids f<i>): hundreds of method bodies, every
+// group of k consecutive bodies first-uses the same n FRESH identifiers (local variable names and/or
+// symbol literals occurring nowhere else in the program or in std) in rotated order, plus some names of
+// their own (write pressure on the symbol table).  The symbol table is process-global and never forgets
+// a name, so a name is fresh only ONCE per process: in-process repetitions (and the in-process baseline
+// run) would make every later run find all names already interned.  Every run of a family program
+// therefore happens in a FRESH child process (this binary re-executed with -extra one=<file>,limit=..,
+// procs=..,load=..), the limit-1 / GOMAXPROCS-1 child being the baseline.
 package main
 
 import (
 	"bytes"
 	"fmt"
 	"os"
+	"os/exec"
 	"path/filepath"
 	"runtime"
 	"sort"
@@ -118,6 +128,195 @@ func genProgram(r *hx.Rng, withErrors bool, tag string) (string, int, int) {
 	return b.String(), k, nerr
 }
 
+// ---------------------------------------------------------------------------------------------------
+// family "many bodies x shared fresh names"
+
+type famShape struct {
+	methods int    // number of method bodies
+	group   int    // k: consecutive bodies sharing the same fresh names
+	shared  int    // n: fresh names shared by the bodies of one group
+	own     int    // names only one body uses (write pressure on the symbol table)
+	stride  int    // rotation of the shared names from one body of a group to the next
+	kind    string // locals | symbols | mixed
+	holder  string // module | class | toplevel
+	errors  bool   // inject type errors into some bodies
+}
+
+func (f famShape) String() string {
+	return fmt.Sprintf("family=shared-fresh-names methods=%d group=%d shared=%d own=%d stride=%d kind=%s holder=%s errors=%v",
+		f.methods, f.group, f.shared, f.own, f.stride, f.kind, f.holder, f.errors)
+}
+
+func genFamShape(r *hx.Rng, idx int, thorough bool) famShape {
+	f := famShape{}
+	f.methods = r.Range(240, 420)
+	if thorough && r.Chance(1, 3) {
+		f.methods = r.Range(420, 900)
+	}
+	f.group = r.Range(2, 6)
+	f.shared = r.Range(8, 24)
+	f.own = r.Range(0, 6)
+	f.stride = r.Range(1, f.shared-1)
+	// the first programs cycle through the kinds/holders so that even a short stream covers each
+	f.kind = []string{"locals", "symbols", "mixed"}[idx%3]
+	f.holder = []string{"module", "toplevel", "class"}[(idx/3+idx)%3]
+	f.errors = idx%4 == 3
+	return f
+}
+
+// genFamily: a valid program (unless sh.errors) whose method bodies are independent of each other; names
+// carry the per-program tag, so they occur nowhere else.  Returns the source and the number of injected errors.
+func genFamily(r *hx.Rng, sh famShape, tag string) (string, int) {
+	var b strings.Builder
+	ind := "  "
+	switch sh.holder {
+	case "module":
+		fmt.Fprintf(&b, "module W%s\n", tag)
+	case "class":
+		fmt.Fprintf(&b, "class K%s\n", tag)
+	default:
+		ind = ""
+	}
+	nerr := 0
+	mname := func(i int) string { return fmt.Sprintf("%s_m%d", tag, i) }
+	for i := 0; i < sh.methods; i++ {
+		g := i / sh.group
+		symBody := sh.kind == "symbols" || (sh.kind == "mixed" && i%2 == 1)
+		ret := "Int"
+		if symBody {
+			ret = "Symbol"
+		}
+		fmt.Fprintf(&b, "%sdef %s(n: Int): %s\n", ind, mname(i), ret)
+		if sh.errors && r.Chance(1, 9) {
+			nerr++
+			switch r.Below(3) {
+			case 0:
+				fmt.Fprintf(&b, "%s  var bad_%s_%d: Int = \"oops\"\n", ind, tag, i)
+			case 1:
+				fmt.Fprintf(&b, "%s  n.no_such_method_%s_%d\n", ind, tag, i)
+			default:
+				fmt.Fprintf(&b, "%s  undefined_fn_%s_%d(n)\n", ind, tag, i)
+			}
+		}
+		var names []string
+		for j := 0; j < sh.shared; j++ {
+			k := (i*sh.stride + j) % sh.shared
+			if symBody {
+				// local AND symbol literal are fresh names shared within the group
+				fmt.Fprintf(&b, "%s  v_%s_%d_%d := :s_%s_%d_%d\n", ind, tag, g, k, tag, g, k)
+			} else {
+				nm := fmt.Sprintf("v_%s_%d_%d", tag, g, k)
+				names = append(names, nm)
+				fmt.Fprintf(&b, "%s  %s := n + %d\n", ind, nm, k)
+			}
+			if j < sh.own {
+				nm := fmt.Sprintf("o_%s_%d_%d", tag, i, j)
+				if symBody {
+					fmt.Fprintf(&b, "%s  %s := :t_%s_%d_%d\n", ind, nm, tag, i, j)
+				} else {
+					names = append(names, nm)
+					fmt.Fprintf(&b, "%s  %s := n\n", ind, nm)
+				}
+			}
+		}
+		if symBody {
+			// every symbol body of a group returns the group's symbol 0 through its local
+			fmt.Fprintf(&b, "%s  v_%s_%d_0\n", ind, tag, g)
+		} else {
+			fmt.Fprintf(&b, "%s  %s\n", ind, strings.Join(names, " + "))
+		}
+		fmt.Fprintf(&b, "%send\n", ind)
+	}
+	recv := ""
+	switch sh.holder {
+	case "module":
+		b.WriteString("end\n")
+		recv = "W" + tag + "."
+	case "class":
+		b.WriteString("end\n")
+		fmt.Fprintf(&b, "obj_%s := K%s()\n", tag, tag)
+		recv = "obj_" + tag + "."
+	}
+	// run a sample: Int bodies are summed, symbol bodies of one group are compared with each other
+	fmt.Fprintf(&b, "total_%s := 0\n", tag)
+	step := sh.methods / 12
+	for i := 0; i < sh.methods; i += step {
+		symBody := sh.kind == "symbols" || (sh.kind == "mixed" && i%2 == 1)
+		if !symBody {
+			fmt.Fprintf(&b, "total_%s += %s%s(%d)\n", tag, recv, mname(i), r.Range(0, 9))
+		}
+	}
+	fmt.Fprintf(&b, "println(total_%s.inspect)\n", tag)
+	if sh.kind != "locals" {
+		fmt.Fprintf(&b, "same_%s := 0\n", tag)
+		for g := 0; g*sh.group < sh.methods; g++ {
+			var syms []int
+			for i := g * sh.group; i < (g+1)*sh.group && i < sh.methods; i++ {
+				if sh.kind == "symbols" || i%2 == 1 {
+					syms = append(syms, i)
+				}
+			}
+			for x := 1; x < len(syms); x++ {
+				fmt.Fprintf(&b, "same_%s += 1 if %s%s(1) == %s%s(2)\n", tag, recv, mname(syms[0]), recv, mname(syms[x]))
+			}
+		}
+		fmt.Fprintf(&b, "println(same_%s.inspect)\n", tag)
+	}
+	return b.String(), nerr
+}
+
+// child mode: one check+compile(+run) of one file in this fresh process; prints the outcome as one line
+func childMain(file string, limit, procs int, load bool) {
+	text, err := os.ReadFile(file)
+	if err != nil {
+		fmt.Println("ERR\t" + err.Error())
+		return
+	}
+	oc := runOnce(filepath.Base(file), string(text), limit, procs, load)
+	fmt.Printf("OUT\t%s\t%v\t%s\t%s\n", strconv.Quote(oc.diags), oc.failed, strconv.Quote(oc.stdout), strconv.Quote(oc.rterr))
+}
+
+// runFresh: the same, in a fresh child process.  A child that dies (Go panic in a checker goroutine) is
+// reported as an outcome of its own ("crash" verdict) rather than killing the stream.
+func runFresh(self, file string, limit, procs int, load bool) outcome {
+	ld := 0
+	if load {
+		ld = 1
+	}
+	nr := ""
+	if norun {
+		nr = ",norun=1"
+	}
+	cmd := exec.Command(self, "-extra", fmt.Sprintf("one=%s,limit=%d,procs=%d,load=%d%s", file, limit, procs, ld, nr))
+	var so, se bytes.Buffer
+	cmd.Stdout, cmd.Stderr = &so, &se
+	err := cmd.Run()
+	if strings.Contains(se.String(), "DATA RACE") {
+		os.Stderr.Write(se.Bytes()) // race reports of the child (race build)
+	}
+	for _, l := range strings.Split(so.String(), "\n") {
+		f := strings.Split(l, "\t")
+		if len(f) == 5 && f[0] == "OUT" {
+			var oc outcome
+			oc.diags, _ = strconv.Unquote(f[1])
+			oc.failed = f[2] == "true"
+			oc.stdout, _ = strconv.Unquote(f[3])
+			oc.rterr, _ = strconv.Unquote(f[4])
+			return oc
+		}
+	}
+	msg := se.String()
+	if i := strings.Index(msg, "panic:"); i >= 0 {
+		msg = msg[i:]
+	} else if i := strings.Index(msg, "fatal error:"); i >= 0 {
+		msg = msg[i:]
+	}
+	if len(msg) > 400 {
+		msg = msg[:400]
+	}
+	return outcome{failed: true, diags: fmt.Sprintf("CHILD CRASHED (%v): %s", err, msg)}
+}
+
 type outcome struct {
 	diags  string
 	failed bool
@@ -130,8 +329,10 @@ type outcome struct {
 var norun bool
 
 func runOnce(name, src string, limit, procs int, load bool) outcome {
-	old := runtime.GOMAXPROCS(procs)
-	defer runtime.GOMAXPROCS(old)
+	if procs > 0 {
+		old := runtime.GOMAXPROCS(procs)
+		defer runtime.GOMAXPROCS(old)
+	}
 	checker.MethodCheckConcurrencyLimit = limit
 	var stop atomic.Bool
 	if load {
@@ -198,7 +399,26 @@ func main() {
 	o := hx.ParseFlags()
 	defer hx.Flush()
 	dump, start, reps := "", 0, 1
+	fam, freps, one, oneLimit, oneProcs, oneLoad := 0, 1, "", 1, 1, false
 	for _, kv := range strings.Split(o.Extra, ",") {
+		if v, ok := strings.CutPrefix(kv, "fam="); ok {
+			fam, _ = strconv.Atoi(v)
+		}
+		if v, ok := strings.CutPrefix(kv, "freps="); ok {
+			freps, _ = strconv.Atoi(v)
+		}
+		if v, ok := strings.CutPrefix(kv, "one="); ok {
+			one = v
+		}
+		if v, ok := strings.CutPrefix(kv, "limit="); ok {
+			oneLimit, _ = strconv.Atoi(v)
+		}
+		if v, ok := strings.CutPrefix(kv, "procs="); ok {
+			oneProcs, _ = strconv.Atoi(v)
+		}
+		if kv == "load=1" {
+			oneLoad = true
+		}
 		if v, ok := strings.CutPrefix(kv, "dump="); ok {
 			dump = v
 		}
@@ -212,14 +432,25 @@ func main() {
 			norun = true
 		}
 	}
+	if one != "" {
+		childMain(one, oneLimit, oneProcs, oneLoad)
+		return
+	}
 	limits := []int{2, 4, 16, 100, 1}
 	procs := []int{1, 2, 16}
-	type prog struct{ id, desc, src string }
+	type prog struct {
+		id, desc, src string
+		fresh         bool // every run in a fresh child process (names are fresh only once per process)
+	}
 	var progs []prog
 	for i, path := range hx.ReadInputs(o.Input) { // corpus: file names of .elk programs
 		text, err := os.ReadFile(path)
 		if err == nil {
-			progs = append(progs, prog{fmt.Sprintf("c%d", i), "corpus " + filepath.Base(path), string(text)})
+			// corpus programs run in process; files named fresh_* run, like the family programs, in fresh processes only
+			progs = append(progs, prog{fmt.Sprintf("c%d", i), "corpus " + filepath.Base(path), string(text), false})
+			if strings.HasPrefix(filepath.Base(path), "fresh_") {
+				progs[len(progs)-1].fresh = true
+			}
 		}
 	}
 	r := hx.NewRng(o.Seed)
@@ -228,21 +459,43 @@ func main() {
 		// method names are unique per program: all programs of one harness process share the runtime's
 		// Kernel singleton, where same-named methods of an earlier program would be redefined
 		src, k, nerr := genProgram(r, withErr, fmt.Sprintf("g%d", i))
-		progs = append(progs, prog{fmt.Sprintf("g%d", i), fmt.Sprintf("methods=%d injected_errors=%d", k, nerr), src})
+		progs = append(progs, prog{fmt.Sprintf("g%d", i), fmt.Sprintf("methods=%d injected_errors=%d", k, nerr), src, false})
 	}
+	// the family has its own generator state: the g-programs of a seed do not depend on fam
+	rf := hx.NewRng(o.Seed ^ 0x5eedfa11)
+	for i := 0; i < fam; i++ {
+		sh := genFamShape(rf, i, o.Tier == "thorough")
+		src, nerr := genFamily(rf, sh, fmt.Sprintf("f%d", i))
+		progs = append(progs, prog{fmt.Sprintf("f%d", i), fmt.Sprintf("%s injected_errors=%d", sh, nerr), src, true})
+	}
+	self, _ := os.Executable()
+	tmp, _ := os.MkdirTemp("", "c11fresh")
+	defer os.RemoveAll(tmp)
+	// fresh-process lattice: the limit-1 run must also agree with itself; 0 = GOMAXPROCS left at the default
+	flimits := []int{100, 16, 1}
+	fprocs := []int{0, 4}
 	for i, p := range progs {
 		if i < start {
 			continue
 		}
 		// announce before running, so that a crash can be attributed
 		fmt.Fprintf(os.Stderr, "RUNNING %d %s\n", i, p.id)
-		base := runOnce(p.id+".elk", p.src, 1, 1, false)
+		var base outcome
+		file := filepath.Join(tmp, p.id+".elk")
+		run := func(l, pc int, load bool) outcome { return runOnce(p.id+".elk", p.src, l, pc, load) }
+		plimits, pprocs, preps := limits, procs, reps
+		if p.fresh {
+			os.WriteFile(file, []byte(p.src), 0644)
+			run = func(l, pc int, load bool) outcome { return runFresh(self, file, l, pc, load) }
+			plimits, pprocs, preps = flimits, fprocs, freps
+		}
+		base = run(1, 1, false)
 		runs, res := 1, ""
 	settings:
-		for rep := 0; rep < reps; rep++ {
-			for _, l := range limits {
-				for _, pc := range procs {
-					oc := runOnce(p.id+".elk", p.src, l, pc, rep%2 == 1)
+		for rep := 0; rep < preps; rep++ {
+			for _, l := range plimits {
+				for _, pc := range pprocs {
+					oc := run(l, pc, rep%2 == 1)
 					runs++
 					if kind, detail := compare(base, oc); kind != "" {
 						res = fmt.Sprintf("DIFF limit=%d,procs=%d,rep=%d %s :: %s", l, pc, rep, kind, detail)
